@@ -48,7 +48,10 @@ TypeOf(md, id) == IF id \in DOMAIN PoolTypeOf THEN <<PoolTypeOf[id]>>
                   ELSE IF id > PoolLast /\ id <= PoolLast + Len(md) THEN TypeVal(md, M(md, id))
                   ELSE <<-9>>              \* an operand whose type the table does not know: never borrowed from
 
-AccVal(md, nd, s) ==
+\* the nodes a factory made with `id` as its v-th argument, in the order they were made (a block's handlers)
+MadeWith(md, id, f, v) == LET ks == SelectSeq([k \in 1..Len(md) |-> k], LAMBDA k : md[k].f = f /\ md[k].a[v] = id)
+                          IN [i \in 1..Len(ks) |-> IdOf(ks[i])]
+AccVal(md, nd, s, id) ==
    CASE s.k = "arg" -> <<nd.a[s.v]>>
      [] s.k = "const" -> <<s.v>>
      [] s.k = "tyof" -> TypeOf(md, nd.a[s.v])
@@ -60,11 +63,12 @@ AccVal(md, nd, s) ==
      [] s.k = "refused" -> Refused          \* nothing the client can reach ever sets it
      [] s.k = "absent" -> <<0>>
      [] s.k = "empty" -> <<>>
+     [] s.k = "made_with" -> MadeWith(md, id, s.l, s.v)
 
 \* everything the interface must answer about a created node
 Expected(md, id) ==
    LET nd == M(md, id)  F == Factory[nd.f] IN
-   [cat |-> F.cat, acc |-> [x \in DOMAIN F.acc |-> IF F.acc[x].k = "self" THEN <<id>> ELSE AccVal(md, nd, F.acc[x])],
+   [cat |-> F.cat, acc |-> [x \in DOMAIN F.acc |-> IF F.acc[x].k = "self" THEN <<id>> ELSE AccVal(md, nd, F.acc[x], id)],
     type |-> TypeVal(md, nd)]
 
 MkInit == made = <<>> /\ mklast = [op |-> "init", f |-> "", a |-> <<>>, n |-> 0, l |-> "", v |-> 0, r |-> 0]
